@@ -53,9 +53,10 @@ def updateCounts (a : Arr) (famb : Bool) : Arr :=
   { a with kmers := kept.map (·.2), variants := kept.map (·.1)
            counts := kept.map (fun rk => cellCount famb rk.1) }
 
-/-- `delete_samples`; `none` = one of its panics (refusal) -/
+/-- `delete_samples`; `none` = one of its panics (refusal). Refused: no names, or as many DISTINCT
+names as the file has samples (repetitions in the list do not count), or a name that is not a sample -/
 def deleteSamples (a : Arr) (del : List String) : Option Arr :=
-  if del.isEmpty || del.length == a.names.length then none
+  if del.isEmpty || del.eraseDups.length == a.names.length then none
   else
     let delSet := del.eraseDups
     -- every (distinct) requested name must be found
